@@ -822,7 +822,7 @@ func tarfsWriteCases(cfg Config, rep *Report, m *Model, rng *rand.Rand) {
 		// (3) the property on the implementation: what TarWriter wrote, read by TarReader
 		if implErr != nil {
 			if len(n.xattrs) > 0 && strings.Contains(implErr.Error(), "only PAX supports Xattrs") {
-				finding(Disagreement{Kind: "monitor", Case: line, Impl: implErr.Error(), Sig: "gnutar.xattrs.refused-under-format-gnu",
+				finding(Disagreement{Kind: "monitor", Case: line2, Impl: implErr.Error(), Sig: "gnutar.xattrs.refused-under-format-gnu",
 					What: "untar to a GNU tar stream fails on a node with extended attributes: " + implErr.Error()})
 			}
 			continue
@@ -834,7 +834,7 @@ func tarfsWriteCases(cfg Config, rep *Report, m *Model, rng *rand.Rand) {
 		r := desync.NewTarReader(bytes.NewReader(implB), desync.TarReaderOptions{})
 		back, err := r.Next()
 		if err != nil {
-			rep.Disagree(Disagreement{Kind: "monitor", Case: line, What: "TarReader cannot read what TarWriter wrote: " + err.Error()})
+			rep.Disagree(Disagreement{Kind: "monitor", Case: line2, What: "TarReader cannot read what TarWriter wrote: " + err.Error()})
 			continue
 		}
 		var content []byte
@@ -867,11 +867,11 @@ func tarfsWriteCases(cfg Config, rep *Report, m *Model, rng *rand.Rand) {
 		}
 		chk("extended attributes", xattrStr(desync.Xattrs(back.Xattrs)) == xattrStr(desync.Xattrs(n.xattrs)))
 		if len(bad) > 0 {
-			rep.Disagree(Disagreement{Kind: "monitor", Case: line, Impl: tfileStr(back),
+			rep.Disagree(Disagreement{Kind: "monitor", Case: line2, Impl: tfileStr(back),
 				What: "GNU-tar output read back through the tar-stream input does not reproduce: " + strings.Join(bad, ", ")})
 		}
 		if gotStat&07000 != wantStat&07000 {
-			finding(Disagreement{Kind: "monitor", Case: line, Impl: tfileStr(back), Sig: "gnutar.header-mode.filemode-bits",
+			finding(Disagreement{Kind: "monitor", Case: line2, Impl: tfileStr(back), Sig: "gnutar.header-mode.filemode-bits",
 				What: fmt.Sprintf("gnu-tar output header mode does not carry the node's set-id/sticky bits (%o read back as %o)", wantStat, gotStat)})
 		}
 	}
